@@ -85,6 +85,7 @@ type MyHost struct {
 	Exec    TxnSet // gtid_executed
 	Recv    TxnSet // relay log: received, not yet applied
 	RecvAll TxnSet // Retrieved_Gtid_Set (since last CHANGE/RESET)
+	Discarded []string // unapplied relay log content dropped by the last RESET REPLICA ALL / CHANGE SOURCE
 	Pend    TxnSet // in binlog, waiting for semi-sync ack
 	SsM, SsS, SsSAct bool
 	Wsc     int
@@ -982,6 +983,9 @@ func (w *MyWorld) execute(inst, host, q string, lockWait int) (*MyResult, *MyErr
 		r = fmt.Sprintf("err:%d", myerr.Code)
 	}
 	ev := TraceEvent{K: "sql", By: inst, At: host, Op: si.kind, Arg: si.arg, Res: r, Mut: si.mut}
+	if si.mut && (si.kind == "ResetReplicaAll" || si.kind == "ChangeSource") && myerr == nil {
+		ev.Val = strings.Join(h.Discarded, ",")
+	}
 	if si.mut {
 		v := h.View()
 		ev.Post = &v
@@ -1166,6 +1170,7 @@ func (w *MyWorld) applyLocked2(h *MyHost, si stmtInfo, inst string) (*MyResult, 
 			return nil, &MyErr{Code: 3081, State: "HY000", Msg: "This operation cannot be performed with running replication threads; run STOP REPLICA FOR CHANNEL '' first"}
 		}
 		h.Src = ""
+		h.Discarded = h.Recv.Sorted() // received, never applied, gone with the relay log
 		h.Recv = TxnSet{}
 		h.RecvAll = TxnSet{}
 		h.IOErrno, h.SQLErrno = 0, 0
@@ -1174,6 +1179,7 @@ func (w *MyWorld) applyLocked2(h *MyHost, si stmtInfo, inst string) (*MyResult, 
 			return nil, &MyErr{Code: 3021, State: "HY000", Msg: "This operation cannot be performed with a running replica io thread; run STOP REPLICA IO_THREAD FOR CHANNEL '' first."}
 		}
 		h.Src = si.arg
+		h.Discarded = h.Recv.Sorted()
 		h.Recv = TxnSet{}
 		h.RecvAll = TxnSet{}
 		h.IOErrno, h.SQLErrno = 0, 0
